@@ -441,6 +441,7 @@ type c32World struct {
 	firstMsg map[int][]byte // per generation: bytes of the first first-message
 	pkts     [][]byte       // by marker
 	curS1Gen int
+	maxS1Gen int // newest handshake generation whose first message reached the peer
 	nLh1     int
 	nQ       int
 	events   int64
@@ -599,7 +600,9 @@ func (w *c32World) sendOne() int {
 func (w *c32World) enabled(e c32Ev) bool {
 	switch e.K {
 	case "s1":
-		return e.N < len(w.pool1)
+		// a first message older than one the peer has already seen is not offered: the peer would answer it over its
+		// newer tunnel and the recv_error exchange that follows tears that tunnel down (C14's subject, not C32's)
+		return e.N < len(w.pool1) && w.pool1[e.N].gen >= w.maxS1Gen
 	case "s2":
 		return e.N < len(w.pool2)
 	}
@@ -645,6 +648,9 @@ func (w *c32World) apply(e c32Ev) {
 		w.me.settle()
 	case "s1":
 		w.curS1Gen = w.pool1[e.N].gen
+		if w.curS1Gen > w.maxS1Gen {
+			w.maxS1Gen = w.curS1Gen
+		}
 		w.peer.deliver(w.me.udp, w.pool1[e.N].pkt.Data)
 	case "s2":
 		replyGen = w.pool2[e.N].gen
@@ -747,7 +753,7 @@ func (w *c32World) key() string {
 	for _, x := range w.pool2 {
 		fmt.Fprintf(&sb, "%d,", m.gen-x.gen)
 	}
-	fmt.Fprintf(&sb, "] nq=%d nlh1=%d tainted=%v", w.nQ, w.nLh1, m.tainted && m.pending)
+	fmt.Fprintf(&sb, "] s1max=%d nq=%d nlh1=%d tainted=%v", m.gen-w.maxS1Gen, w.nQ, w.nLh1, m.tainted && m.pending)
 	return sb.String()
 }
 
@@ -796,7 +802,9 @@ func c32Menu(w *c32World, halfSteps []int, maxQ, maxLh1 int) []c32Ev {
 	}
 	// the two most recent first messages / replies are offered (older ones belong to abandoned handshakes)
 	for i := len(w.pool1) - 1; i >= 0 && i >= len(w.pool1)-2; i-- {
-		menu = append(menu, c32Ev{"s1", i})
+		if w.enabled(c32Ev{"s1", i}) {
+			menu = append(menu, c32Ev{"s1", i})
+		}
 	}
 	for i := len(w.pool2) - 1; i >= 0 && i >= len(w.pool2)-2; i-- {
 		menu = append(menu, c32Ev{"s2", i})
@@ -1011,6 +1019,7 @@ func TestVerifC32(t *testing.T) {
 	c.Assume("◊ timer slack: an attempt scheduled at time T with delay d must not be sent at a tick <= T+d and must have been sent by the first tick >= T+d+interval (one wheel tick of slack); in between the model follows the node")
 	c.Assume("◊ the node's timer wheel has ticked once before the handshake starts (a running node); a wheel that never ticked adds up to one more interval to the first delay")
 	c.Assume("◊ after the last attempt the handshake may be dropped by any later attempt opportunity and must be gone when its last timer expired")
+	c.Assume("a first message of an abandoned handshake is not delivered to the peer after the first message of a newer handshake (the peer would tear down its newer tunnel through a recv_error exchange, which is outside this property)")
 	c.Assume("non-handshake datagrams are delivered loss-free and in order; handshake datagrams are delivered, delayed, duplicated or lost by the explorer; the peer never initiates")
 }
 
